@@ -146,6 +146,10 @@ def _flush(a, good, res):
 LINEBREAKS = set('\n\r\x0b\x0c\x1c\x1d\x1e\x85  ')
 SAFE_ASCII = [chr(c) for c in range(0x20, 0x7f) if chr(c) != '\\']
 NONASCII = list('éßÿ×÷πЖ→日本語€😀𝄞') + [' ', 'ÿ', 'Ā', '߿', 'ࠀ', '￿', '\U00010000', '\U0010ffff']
+# text that is not stable under Unicode normalisation (combining marks, compatibility characters, conjoining jamo) and quoted
+# single characters (a character literal everywhere else - plain text here)
+UNSTABLE = ['e\u0301', '\u2126', '\u212b', '\u1112\u1161\u11ab', 'n\u0303', '\ufb01', '\u00b5', '\u1e9b\u0323']
+QUOTED = ["'q'", "','", "'#'", "' '", "'0'", "';'", "'('", "it's", "'ab'", "''", "'\\n'"]
 ESCAPES = ['\\n', '\\t', '\\r', '\\\\', '\\"', "\\'", '\\0', '\\x41', '\\x7f', '\\x00', '\\xe9', '\\xff', '\\u00e9', '\\u2192', '\\u0041', '\\uffff']
 
 
@@ -154,8 +158,12 @@ def string_raw(draw):
     parts = []
     n = draw(st.integers(1, 14))
     for _ in range(n):
-        k = draw(st.integers(0, 9))
-        if k <= 4:
+        k = draw(st.integers(0, 11))
+        if k == 10:
+            parts.append(draw(st.sampled_from(UNSTABLE)))
+        elif k == 11:
+            parts.append(draw(st.sampled_from(QUOTED)))
+        elif k <= 4:
             parts.append(draw(st.sampled_from(SAFE_ASCII)))
         elif k <= 6:
             parts.append(draw(st.sampled_from(NONASCII)))
@@ -235,7 +243,7 @@ def incbytes_case(draw):
         'cwd': draw(st.sampled_from(['srcdir', 'root', 'elsewhere', 'elsewhere_decoy'])),
         'main_rel': draw(st.booleans()),
         'before': draw(st.integers(0, 3)),
-        'name': draw(st.sampled_from(['blob.bin', 'cat.jpg', 'data_1.dat', 'prelude.forth'])),
+        'name': draw(st.sampled_from(['blob.bin', 'cat.jpg', 'data_1.dat', 'prelude.forth', 'Font.bin', 'README.TXT', 'Data_2.Dat'])),
     }
 
 
@@ -271,6 +279,10 @@ def judge_incbytes(c, res):
             written = 'sub/' + name
         with open(target, 'wb') as f:
             f.write(content)
+        if name != name.lower():
+            # file names are case-sensitive: an all-lower-case twin of the same size sits right next to the real file
+            with open(os.path.join(os.path.dirname(target), name.lower()), 'wb') as f:
+                f.write(b'lower' + blob(c['seed'] + 3, max(0, c['size'] - 5)))
         decoy = b'DECOY' + blob(c['seed'] + 1, max(0, c['size'] - 5))
         if c['cwd'] == 'elsewhere_decoy' and c['where'] != 'symlink_dotdot':
             os.makedirs(os.path.join(other, 'sub'), exist_ok=True)
